@@ -70,11 +70,12 @@ def gen_graph(rng, gid):
                     meths[kind].append(d)
         enums = []
         used_vars = set()
-        for e in ENUM_POOL:
-            if rng.random() < 0.15:
+        p_enum = rng.choice((0.15, 0.15, 0.6))     # some classes declare several enums, scoped and unscoped in any order
+        for e in rng.sample(ENUM_POOL, len(ENUM_POOL)):
+            if rng.random() < p_enum:
                 vs = [v for v in VAR_POOL if rng.random() < 0.3 and v not in used_vars]
                 used_vars.update(vs)
-                enums.append({"name": e, "isClass": rng.random() < 0.15, "isFlag": False, "values": vs})
+                enums.append({"name": e, "isClass": rng.random() < 0.3, "isFlag": False, "values": vs})
         c = {"className": name, "qualifiedClassName": name, "object": True, "superClasses": out,
              "properties": props, "enums": enums}
         c.update(meths)
